@@ -1,6 +1,6 @@
 From Coq Require Import List NArith Bool.
 From V.gen Require Consts.
-From V.C15 Require Import Model Proofs.
+From V.C15 Require Import Model Proofs Engine EngineProofs Dist.
 Import ListNotations.
 Open Scope N_scope.
 From V.C15 Require Import Properties.
@@ -214,3 +214,141 @@ Check (C15_sent_is_sends :
   forall c es s g, g_sent (snd (grun c s g es)) = g_sent g ++ sends (snd (run c s es))).
 Check (C15_default_config :
   1 <= V.gen.Consts.PARALLELISM_FACTOR /\ 1 <= V.gen.Consts.REPLICATION_FACTOR).
+Check (C15_xor_dist_inj :
+  forall c key target,
+  (forall p q, key p = key q -> p = q) -> dist_inj (with_dist c (xor_dist key target))).
+Check (C15_rank_invariance :
+  forall U d1 d2 c seeds es,
+  (forall p q, In p U -> In q U -> (d1 p <? d1 q) = (d2 p <? d2 q) /\ (d1 p =? d1 q) = (d2 p =? d2 q)) ->
+  (forall q, In q seeds -> In q U) -> (forall y, In y (c_kprov c) -> In (fst y) U) ->
+  Forall (ev_inU U) es ->
+  snd (run (with_dist c d1) (init (with_dist c d1) seeds) es) =
+  snd (run (with_dist c d2) (init (with_dist c d2) seeds) es) /\
+  srel U d1 d2 (fst (run (with_dist c d1) (init (with_dist c d1) seeds) es))
+               (fst (run (with_dist c d2) (init (with_dist c d2) seeds) es))).
+Check (C15_monotone_rank_ok :
+  forall (U : list N) (d rank : N -> N),
+  (forall p q, In p U -> In q U -> (rank p < rank q <-> d p < d q)) ->
+  forall p q, In p U -> In q U -> (d p <? d q) = (rank p <? rank q) /\ (d p =? d q) = (rank p =? rank q)).
+Check (C15_dispatch_in_sync :
+  tbl_query_types = V.gen.KadDispatch.query_types /\
+  tbl_message_kinds = V.gen.KadDispatch.message_kinds /\
+  tbl_actions = V.gen.KadDispatch.query_actions /\
+  tbl_quorum = V.gen.KadDispatch.quorum_variants /\
+  tbl_response = V.gen.KadDispatch.response /\
+  tbl_response_failure = V.gen.KadDispatch.register_response_failure /\
+  tbl_send_failure = V.gen.KadDispatch.register_send_failure /\
+  tbl_send_success = V.gen.KadDispatch.register_send_success /\
+  tbl_next_action = V.gen.KadDispatch.next_action /\
+  tbl_peer_action = V.gen.KadDispatch.next_peer_action /\
+  tbl_peer_failure = V.gen.KadDispatch.peer_failure_calls /\
+  tbl_success = V.gen.KadDispatch.success /\
+  tbl_failed = V.gen.KadDispatch.failed /\
+  tbl_request = V.gen.KadDispatch.request_ctor).
+Check (C15_accepts_lookup :
+  forall t mk,
+  (ctx_of t = CFindNode \/ ctx_of t = CGetRecord \/ ctx_of t = CGetProviders) ->
+  (accepts t mk = true <-> mk = req_of t)).
+Check (C15_eng_lookup_is_model :
+  forall g evs0 q t a b c seeds es s,
+  xget q (fst (xrun g [] evs0)) = Some (QL t a b c seeds es s) ->
+  s = fst (run c (init c seeds) es) /\ done s = false /\
+  (ctx_of t = CFindNode /\ c_kind c = KFind \/ ctx_of t = CGetRecord /\ c_kind c = KRecord \/
+   ctx_of t = CGetProviders /\ c_kind c = KProviders) /\
+  c_k c = g_k g /\ c_alpha c = g_alpha g /\ c_local c = g_local g /\ c_dist c = g_dist g /\
+  c_timeout c = g_timeout g).
+Check (C15_eng_one_terminal :
+  forall g evs0 q evs,
+  forallb (fun ev => negb (starts q ev)) evs = true ->
+  let e := fst (xrun g [] evs0) in
+  (count_terminal q (snd (xrun g e evs)) <= 1)%nat /\
+  (xget q e = None -> count_terminal q (snd (xrun g e evs)) = 0%nat) /\
+  (count_terminal q (snd (xrun g e evs)) = 1%nat -> xget q (fst (xrun g e evs)) = None)).
+Check (C15_eng_terminal_removes :
+  forall g evs0 ev q,
+  let e := fst (xrun g [] evs0) in
+  terminal_about q (snd (xstep g e ev)) = true ->
+  xget q e <> None /\ xget q (fst (xstep g e ev)) = None).
+Check (C15_eng_stale_ignored :
+  forall g e q ev,
+  xget q e = None ->
+  match ev with
+  | XResp q' _ _ _ | XFail q' _ | XSendOk q' _ | XSendFail q' _ | XPeerFail q' _ | XPeerAct q' _ => q' = q
+  | XNext _ ch => ch = q + 1
+  | XStart _ _ _ _ _ _ _ => False
+  end ->
+  xstep g e ev = (e, XNone)).
+Check (C15_eng_frame :
+  forall g e q ev,
+  match ev with
+  | XStart q' _ _ _ _ _ _ | XResp q' _ _ _ | XFail q' _ | XSendOk q' _ | XSendFail q' _ | XPeerFail q' _
+  | XPeerAct q' _ => q' <> q
+  | XNext _ ch => ch <> 0 /\ ch <> q + 1
+  end ->
+  xget q (fst (xstep g e ev)) = xget q e).
+Check (C15_eng_resolves :
+  forall g evs0 q p ev,
+  let e := fst (xrun g [] evs0) in
+  match ev with
+  | XPeerFail q' p' => q' = q /\ p' = p
+  | XResp q' p' _ _ | XFail q' p' =>
+      q' = q /\ p' = p /\ match xget q e with Some (QT _ _ _ _) => False | _ => True end
+  | XSendOk q' p' | XSendFail q' p' =>
+      q' = q /\ p' = p /\ match xget q e with Some (QL _ _ _ _ _ _ _) => False | _ => True end
+  | _ => False
+  end ->
+  outstanding (fst (xstep g e ev)) q p = false).
+Check (C15_eng_handover :
+  forall g evs now ch l a b,
+  let e := fst (xrun g [] evs) in
+  let act := snd (xstep g e (XNext now ch)) in
+  (exists q, act = XFindNodeOk q l \/ act = XPutToFound q l a b \/ act = XAddProvToFound q l a b) ->
+  exists q x, xget q e = Some x /\ about act = Some q /\
+    match x with
+    | QL t qtag qn c seeds es s =>
+        c_kind c = KFind /\ c_k c = g_k g /\ c_local c = g_local g /\ c_dist c = g_dist g /\
+        snd (next_action c (fst (run c (init c seeds) es)) now) = AFound l /\
+        (dist_inj c -> ~ In (c_local c) seeds ->
+         let gh := snd (grun c (init c seeds) (ghost0 seeds) es) in
+         NoDup l /\ ~ In (c_local c) l /\ N.of_nat (List.length l) <= c_k c /\
+         (forall p, In p l -> In p (g_answered gh) /\ In p (g_sent gh)) /\
+         kclosest c (c_k c) (g_answered gh) l /\ (1 <= c_k c -> l <> []))
+    | QM qtag qn peers => l = peers /\ a = qtag /\ b = qn
+    | QT _ _ _ _ => False
+    end).
+Check (C15_eng_send_phase_terminates :
+  forall g q evs e t pd sc nd,
+  xget q e = Some (QT t pd sc nd) ->
+  forallb (passive q) evs = true ->
+  (forall p, In p pd -> exists ev, In ev evs /\ resolves_target q p ev = true) ->
+  exists sc', xget q (fst (xrun g e evs)) = Some (QT t [] sc' nd) /\
+    sc <= sc' /\ sc' <= sc + N.of_nat (List.length pd) /\
+    forall now,
+      snd (xstep g (fst (xrun g e evs)) (XNext now (q + 1))) =
+        (if nd <=? sc' then match t with TAddProviderToFoundNodes => XAddProvOk q | _ => XPutOk q end
+         else XFailed q) /\
+      xget q (fst (xstep g (fst (xrun g e evs)) (XNext now (q + 1)))) = None).
+Check (C15_eng_send_phase_waits :
+  forall g e q t p pd sc nd now,
+  xget q e = Some (QT t (p :: pd) sc nd) ->
+  xstep g e (XNext now (q + 1)) = (xupd q (fun _ => QT t (p :: pd) sc nd) e, XNone)).
+Check (C15_eng_to_peers :
+  forall g e q qtag qn peers now,
+  xget q e = Some (QM qtag qn peers) ->
+  xstep g e (XNext now (q + 1)) = (xdel q e, XPutToFound q peers qtag qn)).
+Check (C15_eng_send_kind :
+  forall g evs0 now ch q p mk,
+  let e := fst (xrun g [] evs0) in
+  snd (xstep g e (XNext now ch)) = XSend q p mk ->
+  exists t a b c seeds es s, xget q e = Some (QL t a b c seeds es s) /\ mk = req_of t /\
+    snd (next_action c s now) = ASend p).
+Check (C15_eng_send_fresh :
+  forall g evs0 now ch q p mk,
+  let e := fst (xrun g [] evs0) in
+  snd (xstep g e (XNext now ch)) = XSend q p mk ->
+  exists t a b c seeds es s,
+    xget q e = Some (QL t a b c seeds es s) /\ mk = req_of t /\
+    (dist_inj c -> ~ In (c_local c) seeds ->
+     p <> g_local g /\ ~ In p (sends (snd (run c (init c seeds) es)))) /\
+    exists s', xget q (fst (xstep g e (XNext now ch))) = Some (QL t a b c seeds (es ++ [ENext now]) s') /\
+      sends (snd (run c (init c seeds) (es ++ [ENext now]))) = sends (snd (run c (init c seeds) es)) ++ [p]).
